@@ -1,3 +1,5 @@
+import json
+
 import vtlib
 from checks.component import run_component
 
@@ -25,3 +27,19 @@ def run(tier):
         "item alphabet {1,2}; contents of vacant slots other than their links are not part of the state key",
     ]
     return chk
+
+
+def replay(path):
+    """python3 vt.py C19 --replay replays/C19-xxxx.json : the exploration is deterministic and takes well under a minute, so a
+    replay re-runs it on the current tree and reports whether the recorded fingerprint on the recorded object still fires."""
+    doc = json.load(open(path))
+    fp, obj = doc.get("fingerprint"), doc.get("replay", {}).get("object")
+    chk = run("quick")
+    hit = [v for v in chk.violations if v["fingerprint"] == fp and (obj is None or v.get("replay", {}).get("object") == obj)]
+    if hit:
+        print("VIOLATION property=C19 replay=%s" % path)
+        vtlib.log("  %s" % hit[0]["message"])
+        vtlib.log("  case: %s" % json.dumps(hit[0]["replay"]))
+        return 1
+    vtlib.log("C19 replay: fingerprint %s on %s does not fire any more: property held" % (fp, obj))
+    return 0
